@@ -34,6 +34,7 @@ import (
 	"fmt"
 	"os"
 	"runtime"
+	"strings"
 	"sync"
 	"testing"
 	"time"
@@ -190,14 +191,6 @@ func (s *scene) close() {
 		defer func() { _ = recover() }()
 		_ = p.Server.Close()
 	}()
-}
-
-func pads(c Case) []int {
-	out := make([]int, len(c.Msgs))
-	for i, m := range c.Msgs {
-		out[i] = m.Pad
-	}
-	return out
 }
 
 // produce opens a pair and lets the sender produce its chunks, which the tap
@@ -878,7 +871,11 @@ func genCase(t *rapid.T, kind string) Case {
 func record(c Case, o outcome) {
 	b, _ := json.Marshal(c)
 	if o.Infra != "" {
-		rec.Case(false, 0, "harness=no-verdict")
+		why := o.Infra
+		if i := strings.IndexAny(why, ":("); i > 0 {
+			why = why[:i]
+		}
+		rec.Case(false, 0, "harness=no-verdict", "harness=no-verdict: "+strings.TrimSpace(why))
 		return
 	}
 	rec.Case(o.Nontrivial, ev.Hash(b), o.Classes...)
@@ -948,9 +945,17 @@ func TestTruncationExhaustive(t *testing.T) {
 	var failed sync.Once
 	var failCase Case
 	var failMsg string
+	// the driver runs this test in several processes; each takes its share of
+	// the policy x mode combinations (both kinds)
+	shard, shards := ev.Shard()
 	for _, kind := range []string{"server", "client"} {
+		combo := -1
 		for _, pol := range shorts {
 			for _, mode := range []string{"Sign", "SignAndEncrypt"} {
+				combo++
+				if combo%shards != shard {
+					continue
+				}
 				n := lengthOf(pol, mode, kind)
 				if n == 0 {
 					continue
